@@ -351,6 +351,7 @@ var confusable = [][2]string{
 	{"GFDL-1.1-invariants-only", "GFDL-1.1-invariants-or-later"}, {"LicenseRef-MIT", "MIT"}, {"mit", "MIT"}, {"BSD-3-Clause", "BSD-3-Clause-Clear"},
 	{"MIT", "MIT-0"}, {"DocumentRef-MIT:LicenseRef-MIT", "LicenseRef-MIT"}, {"LicenseRef-a1", "LicenseRef-a2"}, {"GPL-2.0+", "GPL-2.0-or-later"}, {"MIT WITH Bison-exception-2.2", "MIT WITH Bison-exception-1.24"},
 	{"OLDAP-2.2", "OLDAP-2.2.1"}, {"CC-BY-SA-2.0", "CC-BY-2.0"}, {"LGPL-2.1-only", "GPL-2.0-only"},
+	{"LicenseRef-7", "LicenseRef-007"}, {"LicenseRef-Vendor-1.0", "LicenseRef-Vendor-1.00"}, {"DocumentRef-doc-01:LicenseRef-x", "DocumentRef-doc-1:LicenseRef-x"}, {"LicenseRef-a.b", "LicenseRef-a-b"},
 }
 
 // confusableTrees: small expressions holding both terms of a confusable pair, in both orders
